@@ -115,7 +115,15 @@ def one(ctx, dn):
     ctx.case = dict(workload="CONF", presence=presence, node_labels=labels, query=q)
 
     def call(graph, s=start, lab=attrs):
-        return al.delta_conformity(graph, s, delta, alphas, lab, profile_size=psize, path_type=ptype)
+        kw = dict(profile_size=psize, path_type=ptype)
+        # arguments equal to their documented defaults (profile_size=1, path_type="shortest") may be left out
+        if psize == 1 and rng.random() < 0.5:
+            del kw["profile_size"]
+            ctx.cell("default-omitted:profile_size")
+        if ptype == "shortest" and rng.random() < 0.5:
+            del kw["path_type"]
+            ctx.cell("default-omitted:path_type")
+        return al.delta_conformity(graph, s, delta, alphas, lab, **kw)
     try:
         res = call(G)
     except Exception as ex:
